@@ -33,14 +33,15 @@ def build(run):
     exes = {}
     h = cbuild.obj(run, os.path.join(vf.ROOT, "harness/c/c06_msgb_harness.c"), "c06m_harness", flags=flags, includes=inc, compiler="clang")
     exes["msgb"] = cbuild.link(run, [h, msgb, talloc], "c06m_harness.bin", flags=SAN, compiler="clang")
-    sc = cbuild.obj(run, os.path.join(fw, "comm/sercomm.c"), "c06m_sercomm", flags=flags, includes=inc, compiler="clang")
+    from gen import sercomm as _sg
+    sc = [cbuild.obj(run, q, "c06m_sercomm%d" % i, flags=flags, includes=inc, compiler="clang") for i, q in enumerate(_sg.sercomm_sources())]
     oinc = [os.path.join(vf.ROOT, "harness/c/shim_osmocon")] + inc + [cbuild.TOP_INC]
     oc = cbuild.obj(run, os.path.join(vf.ROOT, "harness/c/c06_osmocon_harness.c"), "c06m_osmocon",
                     flags=flags + ['-DOSMOCON_C="%s"' % os.path.join(vf.REPO, "src/host/osmocon/osmocon.c")],
                     includes=oinc, compiler="clang")
     # symbols of the libosmocore environment that the functions under test never call (main(), the tool sockets, the loaders
     # may reference more of them after a change) must not keep the harness from linking
-    exes["osmocon"] = cbuild.link(run, [oc, sc, msgb, talloc], "c06m_osmocon.bin",
+    exes["osmocon"] = cbuild.link(run, [oc] + sc + [msgb, talloc], "c06m_osmocon.bin",
                                   flags=SAN + ["-Wl,--unresolved-symbols=ignore-all"], compiler="clang")
     run.c06m_exe = exes
     return exes
